@@ -27,6 +27,8 @@ const prelude = `(set-option :produce-models true)
 (declare-fun ofrune (Int) Str)
 (declare-fun tolower (Str) Str)
 (declare-fun slt (Str Str) Bool)
+(declare-fun at (Int Int) Int)
+(assert (forall ((o Int) (i Int)) (! (= (at o i) (+ o i)) :pattern ((at o i)))))
 (declare-fun f64.add (F64 F64) F64)
 (declare-fun f64.sub (F64 F64) F64)
 (declare-fun f64.mul (F64 F64) F64)
@@ -159,6 +161,10 @@ func (x *Exec) run() {
 			g := x.safeEvalBool(env, c, x.key)
 			st.pc = x.andPC(st.pc, g)
 		}
+		for _, c := range x.fc.PrivReq {
+			g := x.safeEvalBool(env, c, x.key)
+			st.pc = x.andPC(st.pc, g)
+		}
 	}
 	// vacuity guard: the precondition must be satisfiable
 	x.obls = append(x.obls, &Obligation{Name: x.key + "/cover[requires]#1", Kind: "cover", Func: x.key, Text: "requires satisfiable", PC: st.pc, Goal: False, NDecls: len(x.decls), NAssert: len(x.asserts)})
@@ -175,6 +181,10 @@ func (x *Exec) run() {
 		}
 		for _, c := range x.fc.Exits {
 			x.ghostAssign(out, penv, c)
+		}
+		for _, c := range x.fc.PrivEns {
+			g := x.safeEvalBool(penv, c, x.key)
+			x.check(out, "post", c.Tags, fn.Pos(), "private: "+c.Text, g)
 		}
 		for _, c := range x.fc.Ensures {
 			g := x.safeEvalBool(penv, c, x.key)
